@@ -145,8 +145,11 @@ def place_faults(plan: Dict[str, Any], record: Dict[str, Any]) -> Optional[Dict[
     z3n = counts.get("z3_calls", 0)
     clk = counts.get("clock_reads", 0)
     kinds = []
+    sites = {k: v for k, v in (record.get("z3_sites") or {}).items() if v > 0}
     if z3n:
         kinds += ["z3_outage", "z3_outage", "z3_starved", "z3_unknown"]
+        if sites:
+            kinds += ["z3_site_outage", "z3_site_outage"]
     if clk:
         kinds += ["clk_jump_fwd", "clk_jump_fwd", "clk_jump_back", "clk_slow_window"]
     if not kinds:
@@ -155,7 +158,10 @@ def place_faults(plan: Dict[str, Any], record: Dict[str, Any]) -> Optional[Dict[
     timeouts = [s["settings"]["timeout_seconds"] or 2 for s in plan["scenarios"]]
     for _ in range(rng.choice([1, 1, 2, 3])):
         k = rng.choice(kinds)
-        if k == "z3_outage":
+        if k == "z3_site_outage":
+            site = rng.choice(sorted(sites))
+            faults.append({"kind": k, "site": site, "at_site_call": rng.randrange(sites[site]), "len": rng.choice([21, 40, 200, 100000])})
+        elif k == "z3_outage":
             faults.append({"kind": k, "at_call": rng.randrange(z3n), "len": rng.choice([21, 25, 40, 80, 400])})
         elif k == "z3_starved":
             faults.append({"kind": k, "at_call": rng.randrange(z3n), "len": rng.choice([1, 5, 25, 100])})
@@ -383,6 +389,15 @@ def judge_solution(tree, sc: Dict[str, Any], recog: Recognizer) -> Tuple[List[Di
     return out, info
 
 
+def setting_tags(st: Dict[str, Any]) -> List[str]:
+    """Solver settings that identify the input class of a known finding."""
+    tags = []
+    tim = st.get("tree_insertion_methods")
+    if tim == 0 or (tim is None and st.get("activate_unsat_support")):
+        tags.append("setting:no_tree_insertion")
+    return tags
+
+
 def iter_nodes_count(m: MNode):
     stack = [m]
     while stack:
@@ -562,7 +577,7 @@ def _run(plan, world: World, monitors: Monitors, record):
         h["solutions"].append(info.get("str"))
         record["outcomes"].append(["solve", i, "tree", info.get("str"), info.get("quantifier_matches", 0)])
         for p in problems:
-            p.update({"property": "C01", "op_index": op_index, "solver": i, "features": features_with_grammar(sc["formula"], sc["grammar"])})
+            p.update({"property": "C01", "op_index": op_index, "solver": i, "features": features_with_grammar(sc["formula"], sc["grammar"]) + setting_tags(sc["settings"])})
             viol.append(p)
 
 
